@@ -36,7 +36,7 @@ type c13Layout struct {
 
 var c13Layouts = []c13Layout{{"line", false, false, false, false, ""}, {"multiline", true, false, false, false, ""}, {"unicode-prefix", false, true, false, false, ""}, {"unicode-prefix-multiline", true, true, false, false, ""},
 	{"unicode-prefix-same-line", false, true, true, false, ""}, {"chains", false, false, false, true, ""}, {"chains-multiline", true, false, false, true, ""},
-	{"crlf", true, false, false, false, "crlf"}, {"cr-blanks", false, false, false, false, "cr"}, {"tab-blanks", false, false, false, false, "tab"}, {"nbsp-blanks-multiline", true, false, false, false, "nbsp"}}
+	{"crlf", true, false, false, false, "crlf"}, {"cr-blanks", false, false, false, false, "cr"}, {"tab-blanks", false, false, false, false, "tab"}, {"nbsp-blanks-multiline", true, false, false, false, "nbsp"}, {"leading-blank-lines", false, false, false, false, "lead"}, {"leading-blank-lines-multiline", true, false, false, false, "lead"}}
 
 // c13Blanks replaces the blanks between tokens (not inside string literals); every replacement is one rune
 // that does not end a line, so no expected location moves.
@@ -106,6 +106,18 @@ func c13Text(e *gen.Expr, l c13Layout) (string, map[string][2]int) {
 			}
 		}
 		return c13PrefixSameLine + text + c13Suffix, out
+	}
+	if l.ws == "lead" {
+		// the source starts with blank lines and an indented first line: positions are those of the caller's text
+		out := map[string][2]int{}
+		for k, a := range anchors {
+			col := a[1]
+			if a[0] == 1 {
+				col += 3
+			}
+			out[k] = [2]int{a[0] + 2, col}
+		}
+		return "\n \t\n   " + text + "\n\n", out
 	}
 	if l.ws != "" {
 		return c13Blanks(text, l.ws), anchors
